@@ -477,10 +477,16 @@ func c08Scan(c *Ctx, r *Report, rule string) {
 				n++
 				r.fnSeen(fnName(fn))
 				bad := ""
+				var gs []guard
 				for _, g := range blockGuards(b) {
-					if g.at == nil || !l.body[g.at.Block()] {
-						continue // guards outside the loop
+					if g.at != nil && l.body[g.at.Block()] {
+						gs = append(gs, g)
 					}
+				}
+				for _, d := range loopControlDeps(l, b) {
+					gs = append(gs, d.guard())
+				}
+				for _, g := range gs {
 					ng := normGuard(g)
 					if _, ok := assertFactOf(g); ok {
 						continue
